@@ -65,7 +65,14 @@ def run(ck, prog, ctx):
                             ck.ob("KIND", "prefix/" + lit.rstrip(":"), variants == {want}, "lines starting with %r become DiseaseKind::%s (expected %s)" % (lit, "/".join(sorted(variants)) or "nothing", want), where=pl.where(t.line))
         ck.floor("KIND", "disease prefixes", n, 2)
     pr = prog.body(D + "parse")
-    if ck.anchor("KIND", "disease_to_hpo::parse", pr):
+    if pr is None or not enum_arms(prog, pr, "parser::disease_to_hpo::DiseaseKind"):
+        # the row loop may live in another private function of the module (`parse` only opening the file): the function that
+        # matches on DiseaseKind and annotates
+        cands = [b_ for b_ in prog.production() if b_.kind in ("Fn", "AssocFn") and b_.id.startswith(D) and enum_arms(prog, b_, "parser::disease_to_hpo::DiseaseKind")
+                 and any("annotate_" in (t_.callee.res or "") for _, t_ in b_.calls())]
+        if len(cands) == 1:
+            pr = cands[0]
+    if ck.anchor("KIND", "disease_to_hpo::parse", pr, private=True):
         arms = enum_arms(prog, pr, "parser::disease_to_hpo::DiseaseKind")
         total = 0
         for sw in arms:
